@@ -68,7 +68,7 @@ CHECKS['C18'] = {
 
 CHECKS['C02'] = {
 	'text': 'Lean theorems: the operator ladder read from data/grammar.lark equals CPython\'s operator table on the common operators (decide over the generated table); for every operator term, with any redundant parentheses, the ladder-driven reference parser reads CPython\'s minimal text into a lark-shaped tree whose CPython-style reading (left-nested BinOp, n-ary BoolOp, Compare chains, UnaryOp) is the term (Tranp.Prec round-trip theorems + chain lemma, unbounded); decision logic of the first-match node-class dispatch over the generated resolver table, iff-characterisations of every function kind and their agreement with Python scoping under three stated coding conventions (counterexample without them). Tied to the code by two translators and three correspondence streams (lark tree vs reference parser; real node class at every tree position vs model; ast.parse vs astOf). Ternary, lambda, calls, chains, literals, comprehensions and statement nesting are checked by search only: canon(nodes(s)) == canon(ast.parse(s)) on generated programs. Extended: group_test for conditional expressions and lambdas in full generality (any nesting and redundant parentheses), prefix_grouping, compare_chain (n-ary Compare with two-word operators), call_arguments (kinds, labels, order).',
-	'note': TB + ' lark\'s LALR construction is assumed to return a derivation of the grammar; pyTable is transcribed from Grammar/python.gram and validated by stream pygroup. Thirteen known findings (constructs CPython and grammar.lark both accept but read differently), each with its own key.',
+	'note': TB + ' lark\'s LALR construction is assumed to return a derivation of the grammar; pyTable is transcribed from Grammar/python.gram and validated by stream pygroup. Fourteen known findings (constructs CPython and grammar.lark both accept but read differently), each with its own key.',
 	'technique': 'Lean 4 proof (precedence-climbing inversion, decide over generated tables) + differential correspondence + CPython-ast oracle search',
 	'ref': 'DESIGN.md §5 C02, §4 Prec, §10',
 }
